@@ -41,6 +41,7 @@ type frame struct {
 	panicv    interface{}
 	phitemps  []V
 	skipPhis  bool
+	retByIfc  bool
 }
 
 type Exec struct {
@@ -495,6 +496,9 @@ func (fr *frame) visit(instr ssa.Instruction) int {
 			c = ex.simp(c)
 			if _, known := ex.path.known[c.id]; !c.IsConst() && !known && (ex.path.pos >= len(ex.path.prefix) || true) {
 				if fr.tryIfConvert(in, c) {
+					if fr.retByIfc {
+						return kReturn
+					}
 					return kJump
 				}
 			}
